@@ -127,7 +127,14 @@ class C02(Check):
                 if self.tier == "quick" and wk != ("toy",) and k % 3 != (self.seed + len(planted)) % 3:
                     continue
                 yield (f"cn={alt}", (wk, build, struct, planted, (("cn", alt),), gap))
-        if devs and devs[0][0] == "cn":
+            # read depth exactly at / below min_coverage; every observation exactly at / just below a quality threshold
+            k = sum(len(a) for a in planted) + len(planted)
+            if self.tier == "thorough" or wk == ("toy",) or k % 4 == self.seed % 4:
+                for d in (2, 1):
+                    yield (f"depth={d}", (wk, build, struct, planted, (("depth", d),), gap))
+                for q in ("at", "below_q", "below_m"):
+                    yield (f"qual={q}", (wk, build, struct, planted, (("qual", q),), gap))
+        if devs and devs[0][0] in ("cn", "depth", "qual"):
             return
         base = self._base_table(gene, struct, planted)
         cells = []
@@ -151,9 +158,9 @@ class C02(Check):
             for n in (3, DEPTH):
                 yield (f"novel {m}={n}", (wk, build, struct, planted, devs + (("set", m[0], m[1], n),), gap))
 
-    def _base_table(self, gene, struct, planted):
+    def _base_table(self, gene, struct, planted, depth=DEPTH):
         copies = [(gene.alleles[a].cn_config, tables.allele_variants(gene, a)) for a in planted]
-        return tables.plant(gene, copies, DEPTH)
+        return tables.plant(gene, copies, depth)
 
     def canon(self, st):
         wk, build, struct, planted, devs, gap = st
@@ -169,10 +176,16 @@ class C02(Check):
         repo.reset_debug_store()
         gene = worlds.gene_of(wk, build)
         cn_struct = next((d[1] for d in devs if d[0] == "cn"), None)
-        devs = tuple(d for d in devs if d[0] != "cn")
-        table = tables.apply_deviations(self._base_table(gene, struct, planted), devs)
+        depth = next((d[1] for d in devs if d[0] == "depth"), DEPTH)
+        qual = next((d[1] for d in devs if d[0] == "qual"), None)
+        special = tuple(d for d in devs if d[0] in ("depth", "qual"))
+        devs = tuple(d for d in devs if d[0] not in ("cn", "depth", "qual"))
+        table = tables.apply_deviations(self._base_table(gene, struct, planted, depth), devs)
         p = Profile("verif", gap=gap)
-        cov = tables.to_coverage(gene, p, table)
+        hq = {None: tables.HQ, "at": (p.min_mapq, p.min_quality), "below_q": (60, p.min_quality - 1), "below_m": (p.min_mapq - 1, 60)}[qual]
+        cov = tables.to_coverage(gene, p, table, hq=hq)
+        if special and (depth < p.min_coverage or qual in ("below_q", "below_m")):
+            devs = devs + (("cn", 0),)      # nothing qualifies: no noise-free clause
         if cn_struct is not None:
             struct = cn_struct
             devs = devs + (("cn", 0),)      # no noise-free clause for a foreign structure
@@ -190,7 +203,7 @@ class C02(Check):
             S = tuple(sorted(a.major for a, c in s.solution.items() for _ in range(c)))
             N = tuple(sorted((m.pos, m.op) for m in s.added))
             got.append((s.score, S, N))
-        obs = {pos: {op: [tables.HQ] * n for op, n in d.items()} for pos, d in table.items()}
+        obs = {pos: {op: [hq] * n for op, n in d.items()} for pos, d in table.items()}
         try:
             v, info = major_ref.judge(gene, p, obs, list(struct), gap, got, planted=planted if not devs else None)
         except major_ref.Boundary:
